@@ -17,6 +17,21 @@ use std::sync::atomic::{AtomicUsize, Ordering};
 use std::time::Duration;
 use tokio::task::JoinHandle;
 
+/// allocation oracle of a live session, cumulative over its history (buffers such as the handshake transcript grow by
+/// doubling, so a single call may legitimately allocate as much as everything received so far): the allocator traffic of
+/// all injections into one session must stay below 64·(bytes injected) + 32 KiB·(datagrams) + 1 MiB. A reserve of the
+/// announced 2^24-byte total_length, or a per-message blow-up, exceeds it.
+pub const LIVE_BOUND: Option<(u64, u64)> = None;
+fn session_alloc_check(run: &mut Run, s: &mut Session, case: &str, len: usize) {
+    s.cum_alloc += super::last_alloc_used(); s.cum_in += len as u64; s.n_in += 1;
+    if std::env::var("C07_DEBUG").is_ok() && s.n_in <= 12 { eprintln!("dbg {case:.40} n={} used={} cum={}", s.n_in, super::last_alloc_used(), s.cum_alloc); }
+    let lim = 64 * s.cum_in + 32_768 * s.n_in + (1 << 20);
+    if s.cum_alloc > lim && !s.alloc_flagged {
+        s.alloc_flagged = true;
+        run.fail("alloc:DtlsTransport(task)", case, &format!("{} bytes allocated after {} datagrams / {} bytes injected into this session (limit {lim})", s.cum_alloc, s.n_in, s.cum_in));
+    }
+}
+
 pub struct End {
     pub t: Arc<DtlsTransport>,
     runner: Option<JoinHandle<()>>,
@@ -26,12 +41,14 @@ pub struct End {
 }
 
 pub struct Session {
+    _sink: Option<Arc<tokio::net::UdpSocket>>,
     rt: tokio::runtime::Runtime,
     pub ends: Vec<End>,
-    /// datagrams seen on the wire, per direction (0 = sent by ends[0])
+    /// datagrams seen on the wire, labelled with the index of the endpoint that RECEIVED them (0 = delivered to ends[0] = the client)
     pub wire: Arc<parking_lot::Mutex<Vec<(usize, Vec<u8>)>>>,
     /// remaining datagrams the pumps may still deliver (usize::MAX = unlimited)
     gate: Arc<AtomicUsize>,
+    cum_alloc: u64, cum_in: u64, n_in: u64, alloc_flagged: bool,
 }
 
 async fn mk_end(is_client: bool, sock: Arc<tokio::net::UdpSocket>, remote: SocketAddr, idx: usize,
@@ -49,7 +66,7 @@ async fn mk_end(is_client: bool, sock: Arc<tokio::net::UdpSocket>, remote: Socke
         let mut mb = Vec::new();
         loop {
             let Ok((n, from)) = sock.recv_from(&mut buf).await else { break };
-            wire.lock().push((1 - idx, buf[..n].to_vec()));
+            wire.lock().push((idx, buf[..n].to_vec()));
             let g = gate.load(Ordering::SeqCst);
             if g == 0 { continue; }
             if g != usize::MAX { gate.store(g - 1, Ordering::SeqCst); }
@@ -65,6 +82,7 @@ impl Session {
         let rt = tokio::runtime::Builder::new_current_thread().enable_all().build().unwrap();
         let wire = Arc::new(parking_lot::Mutex::new(vec![]));
         let gate = Arc::new(AtomicUsize::new(gate));
+        let mut sink = None;
         let ends = rt.block_on(async {
             let a = Arc::new(tokio::net::UdpSocket::bind("127.0.0.1:0").await.unwrap());
             let b = Arc::new(tokio::net::UdpSocket::bind("127.0.0.1:0").await.unwrap());
@@ -74,11 +92,11 @@ impl Session {
                 let cli = mk_end(true, a, ba, 0, wire.clone(), gate.clone()).await;
                 vec![cli, srv]
             } else {
-                std::mem::forget(b); // sink: keeps the port open, replies are never read
+                sink = Some(b.clone()); // sink: keeps the port open for the session's lifetime, replies are never read
                 vec![mk_end(lone_is_client, a, ba, 0, wire.clone(), gate.clone()).await]
             }
         });
-        Session { rt, ends, wire, gate }
+        Session { _sink: sink, rt, ends, wire, gate, cum_alloc: 0, cum_in: 0, n_in: 0, alloc_flagged: false }
     }
     pub fn step(&self, ms: u64) { self.rt.block_on(async { tokio::time::sleep(Duration::from_millis(ms)).await }); }
     pub fn connected(&self) -> bool {
@@ -94,11 +112,15 @@ impl Session {
             DtlsState::Connected(..) => "conn", DtlsState::Failed => "failed", DtlsState::Closed => "closed" }).collect::<Vec<_>>().join("/")
     }
     /// hand one datagram to endpoint `i`, let the tasks run, re-raise a task panic
-    fn inject(&mut self, i: usize, pkt: &[u8]) {
+    fn inject(&mut self, i: usize, pkt: &[u8]) { self.inject_us(i, pkt, 300) }
+    fn inject_us(&mut self, i: usize, pkt: &[u8], settle_us: u64) {
         let t = self.ends[i].t.clone();
         let from = self.ends[i].addr;
         let p = Bytes::copy_from_slice(pkt);
-        self.rt.block_on(async move { let mut mb = Vec::new(); t.receive(p, from, &mut mb).await; tokio::time::sleep(Duration::from_micros(300)).await; });
+        self.rt.block_on(async move {
+            let mut mb = Vec::new(); t.receive(p, from, &mut mb).await;
+            if settle_us > 0 { tokio::time::sleep(Duration::from_micros(settle_us)).await; } else { for _ in 0..8 { tokio::task::yield_now().await; } }
+        });
         for e in self.ends.iter_mut() {
             for h in [&mut e.runner, &mut e.pump] {
                 if h.as_ref().map_or(false, |x| x.is_finished()) {
@@ -110,10 +132,20 @@ impl Session {
     }
 }
 
+/// like `run_inject` but without the settle sleep (floods): the tasks run while the channel is drained by yields
+pub fn run_inject_fast(run: &mut Run, s: &mut Session, state: &str, i: usize, pkt: &[u8]) {
+    let p = pkt.to_vec();
+    let mut sref = std::panic::AssertUnwindSafe(&mut *s);
+    exec(run, "dtlslive", &format!("{state} {i} {}", hex(pkt)), "DtlsTransport(task)", true, LIVE_BOUND.map(|(a, b)| (a, b, pkt.len() as u64)), move || { sref.inject_us(i, &p, 0); "noncompared".into() });
+    session_alloc_check(run, s, &format!("dtlslive {state} {i} {}", hex(pkt)), pkt.len());
+    run.count(&format!("dtlslive:state:{state}"));
+}
+
 pub fn run_inject(run: &mut Run, s: &mut Session, state: &str, i: usize, pkt: &[u8], nt: bool) {
     let p = pkt.to_vec();
-    let mut sref = std::panic::AssertUnwindSafe(s);
-    exec(run, "dtlslive", &format!("{state} {i} {}", hex(pkt)), "DtlsTransport(task)", nt, None, move || { sref.inject(i, &p); "noncompared".into() });
+    let mut sref = std::panic::AssertUnwindSafe(&mut *s);
+    exec(run, "dtlslive", &format!("{state} {i} {}", hex(pkt)), "DtlsTransport(task)", nt, LIVE_BOUND.map(|(a, b)| (a, b, pkt.len() as u64)), move || { sref.inject(i, &p); "noncompared".into() });
+    session_alloc_check(run, s, &format!("dtlslive {state} {i} {}", hex(pkt)), pkt.len());
     run.count(&format!("dtlslive:state:{state}"));
 }
 
@@ -146,22 +178,42 @@ fn probe_fresh(run: &mut Run, is_client: bool, state: &str, pkt: &[u8]) {
     run_inject(run, &mut s, state, 0, &[22, 254, 253, 0, 0], true);   // liveness probe: a short record must still be taken
 }
 
-/// 65 536 in-order handshake messages the state machine ignores (HelloRequest, empty body): drives the 16-bit
-/// `recv_message_seq` counter of `process_handshake_payload` to its limit on an unauthenticated, pre-handshake endpoint
-fn seq_flood(run: &mut Run, is_client: bool) {
+/// Counter floods: a lone endpoint gets the genuine first flight of its peer (`prelude`, taken from the reference
+/// handshake: for a server the ClientHello), then ≈ 65 700 in-order handshake messages of one type with an empty body.
+/// Drives every 16-bit handshake counter (`recv_message_seq`, and the send-side `message_seq` through handlers that
+/// answer each message) to its limit on an endpoint that has authenticated nothing.
+fn type_flood(run: &mut Run, is_client: bool, prelude: &[Vec<u8>], typ: u8, start_seq: u32) {
     use rustrtc::transports::dtls::handshake::HandshakeType as T;
-    let st = if is_client { "flood-client" } else { "flood-server" };
+    let Ok(t) = T::try_from(typ) else { return };
+    let st = format!("flood-{}-t{typ}", if is_client { "client" } else { "server" });
     let mut s = Session::new(false, is_client, usize::MAX);
     s.step(1);
-    let mut seq: u32 = 0;
-    let mut rec = 0u64;
-    while seq < 65_536 + 200 {
-        let msgs: Vec<(T, u16, Vec<u8>)> = (0..100).map(|i| (T::HelloRequest, (seq + i) as u16, vec![])).collect();
+    for p in prelude { run_inject(run, &mut s, &st, 0, p, true); }
+    let mut seq: u32 = start_seq;
+    let mut rec = 1u64;
+    while seq < 65_536 + 300 {
+        let msgs: Vec<(T, u16, Vec<u8>)> = (0..100).map(|i| (t, (seq + i) as u16, vec![])).collect();
         seq += 100;
         let d = super::dtls::handshake_record(&msgs, rec); rec += 1;
-        run_inject(run, &mut s, st, 0, &d, true);
+        run_inject_fast(run, &mut s, &st, 0, &d);
         if run.fails.iter().any(|f| f.case.starts_with(&format!("dtlslive {st}"))) { break; }
     }
+    run_inject(run, &mut s, &st, 0, &[22, 254, 253, 0, 0], true);
+    run.count(&format!("dtlslive:end_state:{st}:{}", s.state_text()));
+}
+
+/// 70 000 ChangeCipherSpec records (100 per datagram) to a lone endpoint: `read_epoch` must saturate, not overflow
+fn ccs_flood(run: &mut Run, is_client: bool) {
+    let st = if is_client { "flood-ccs-client" } else { "flood-ccs-server" };
+    let mut s = Session::new(false, is_client, usize::MAX);
+    s.step(1);
+    for k in 0..700u64 {
+        let mut d = vec![];
+        for j in 0..100u64 { d.extend_from_slice(&[20, 254, 253, 0, 0]); d.extend_from_slice(&(k * 100 + j).to_be_bytes()[2..]); d.extend_from_slice(&[0, 1, 1]); }
+        run_inject_fast(run, &mut s, st, 0, &d);
+        if run.fails.iter().any(|f| f.case.starts_with(&format!("dtlslive {st}"))) { break; }
+    }
+    run_inject(run, &mut s, st, 0, &[22, 254, 253, 0, 0], true);
     run.count(&format!("dtlslive:end_state:{st}:{}", s.state_text()));
 }
 
@@ -181,11 +233,102 @@ fn hvr_flood(run: &mut Run) {
     run.count(&format!("dtlslive:end_state:flood-hvr:{}", s.state_text()));
 }
 
+// ---------------------------------------------------------------------------------------------
+// `dtlsctx` (COMPARED): the acceptance / reassembly bookkeeping of `process_handshake_payload` observed through the
+// context snapshots the run loop publishes (hook `verif_hooks::decoders::hs_ctx`). Message types are restricted to those
+// whose handler is a no-op for the endpoint's role, so that what is observed is the bookkeeping itself.
+fn ctx_wait(id: usize, after: u64, s: &Session) -> Option<(u64, [u64; 7])> {
+    for _ in 0..200 {
+        if let Some((k, v)) = rustrtc::verif_hooks::decoders::hs_ctx(id) { if k > after { return Some((k, v)); } }
+        s.step(1);
+    }
+    None
+}
+fn gen_ctx_payload(rng: &mut Rng, is_client: bool, expect: u16, pending: &mut Option<(u8, u16, u32, u32)>) -> Vec<u8> {
+    use rustrtc::transports::dtls::handshake::{HandshakeMessage, HandshakeType as T};
+    let types: &[u8] = if is_client { &[0, 1, 13, 15, 16] } else { &[0, 2, 3, 12, 13, 14, 15] };
+    let mut out = bytes::BytesMut::new();
+    let mut exp = expect;
+    for _ in 0..rng.range(1, 4) {
+        let t = *rng.pick(types);
+        let seq = match rng.below(10) { 0 => exp.wrapping_add(1), 1 => exp.wrapping_sub(1), 2 => rng.next() as u16, _ => exp };
+        // continue a pending fragmented message, start one, or send a whole message
+        let (typ, seq, total, off, len) = if let (Some((pt, ps, ptotal, pfilled)), true) = (*pending, rng.chance(3, 4)) {
+            let remaining = ptotal.saturating_sub(pfilled);
+            let len = (match rng.below(6) { 0 => remaining + 1, 1 => 0, _ => rng.range(1, remaining.max(1) as u64) as u32 }).min(400);
+            // at the end of the buffer, beyond it, at 0, or overlapping the bytes already held
+            let off = match rng.below(10) { 0 => pfilled + 1, 1 => 0, 2 | 3 => rng.below(pfilled as u64 + 1) as u32, _ => pfilled };
+            (pt, ps, ptotal, off, len)
+        } else {
+            match rng.below(10) {
+                0..=5 => { let l = rng.below(30) as u32; (t, seq, l, 0, l) }
+                6 | 7 => { let total = rng.range(2, 60) as u32; (t, seq, total, 0, rng.range(0, total as u64 - 1) as u32) }
+                8 => (t, seq, *rng.pick(&[0xFF_FFFFu32, 0x10000, 70]), *rng.pick(&[0u32, 5]), rng.below(20) as u32),
+                _ => { let l = rng.below(20) as u32; (t, seq, l + 1, 0, l) }
+            }
+        };
+        let Ok(ht) = T::try_from(typ) else { continue };
+        let body = rng.bytes(len as usize);
+        let start = out.len();
+        HandshakeMessage { msg_type: ht, total_length: total, message_seq: seq, fragment_offset: off, fragment_length: len, body: bytes::Bytes::from(body) }.encode(&mut out);
+        let tl = total.to_be_bytes(); out[start + 1..start + 4].copy_from_slice(&tl[1..]);      // encode() writes body.len() as total
+        // harness-side guess of what stays pending (only steers the generator; the comparison does not depend on it)
+        if total != len && seq == exp { if off == 0 && len < total { *pending = Some((typ, seq, total, len)); } else if let Some((a, b, c, f)) = *pending { if off <= f && off + len > f { if off + len >= c { *pending = None; exp = exp.wrapping_add(1); } else { *pending = Some((a, b, c, off + len)); } } } }
+        else if total == len && seq == exp { exp = exp.wrapping_add(1); *pending = None; }
+    }
+    if rng.chance(1, 8) { let n = out.len(); out.truncate(rng.below(n as u64 + 1) as usize); }
+    if rng.chance(1, 10) { out.extend_from_slice(&rng.bytes(5)); }
+    out.truncate(60_000);                                   // one record (16-bit length)
+    out.to_vec()
+}
+pub fn run_dtlsctx(run: &mut Run, rng: &mut Rng, is_client: bool, replay: Option<Vec<Vec<u8>>>) {
+    let mut s = Session::new(false, is_client, usize::MAX);
+    s.step(1);
+    let id = s.ends[0].t.verif_instance_id();
+    rustrtc::verif_hooks::decoders::hs_ctx_clear(id);
+    let record_ct = |ct: u8, epoch: u16, payload: &[u8], seq: u64| -> Vec<u8> {
+        let mut r = vec![ct, 254, 253]; r.extend_from_slice(&epoch.to_be_bytes()); r.extend_from_slice(&seq.to_be_bytes()[2..]); r.extend_from_slice(&(payload.len() as u16).to_be_bytes()); r.extend_from_slice(payload); r };
+    let record = |payload: &[u8], seq: u64| -> Vec<u8> {
+        let mut r = vec![22u8, 254, 253, 0, 0]; r.extend_from_slice(&seq.to_be_bytes()[2..]); r.extend_from_slice(&(payload.len() as u16).to_be_bytes()); r.extend_from_slice(payload); r };
+    // baseline (the client has already sent its ClientHello: message_seq 1, transcript non-empty)
+    run_inject(run, &mut s, "ctx", 0, &record(&[], 0), false);
+    let Some((mut k, base)) = ctx_wait(id, 0, &s) else { run.count("dtlsctx:no_baseline"); return };
+    let n = replay.as_ref().map_or(rng.range(2, 8) as usize, |r| r.len());
+    let mut payloads = vec![]; let mut outs = vec![];
+    let mut expect = base[0] as u16; let mut pending = None;
+    for i in 0..n {
+        let p = match &replay { Some(r) => r[i].clone(), None => {
+            // a datagram = 1..3 records: handshake payloads, interleaved with CCS / alerts (1 or 2 bytes, never
+            // close_notify) / epoch-0 application data / heartbeat / a protected-epoch record (ends the walk) / garbage
+            let mut d = vec![];
+            for j in 0..rng.range(1, 3) {
+                match rng.below(12) {
+                    0 => d.extend(record_ct(20, 0, &[1], j)), 1 => d.extend(record_ct(21, 0, &[2], j)), 2 => d.extend(record_ct(21, 0, &[2, rng.range(1, 255) as u8], j)),
+                    3 => { let n = rng.below(9) as usize; d.extend(record_ct(23, 0, &rng.bytes(n), j)) } 4 => d.extend(record_ct(24, 0, &[1, 2, 3], j)),
+                    5 => { let n = rng.below(30) as usize; d.extend(record_ct(*rng.pick(&[22u8, 23, 21]), rng.range(1, 3) as u16, &rng.bytes(n), j)) }
+                    6 => { let n = rng.below(16) as usize; d.extend(rng.bytes(n)) }
+                    _ => { let pl = gen_ctx_payload(rng, is_client, expect, &mut pending); d.extend(record_ct(22, 0, &pl, j)) }
+                }
+            }
+            d } };
+        run_inject(run, &mut s, "ctx", 0, &p, false);
+        let Some((k2, v)) = ctx_wait(id, k, &s) else { run.count("dtlsctx:no_snapshot"); return };
+        k = k2; expect = v[0] as u16;
+        outs.push(format!("{},{},{},{},{},{},{}", v[0], v[1], v[2], v[3], v[4] - base[4], v[5], v[6]));
+        payloads.push(p);
+    }
+    let text = format!("{} {} {}", is_client as u8, base[1], payloads.iter().map(|p| hex(p)).collect::<Vec<_>>().join(" "));
+    let out = format!("ok {}", outs.join(" "));
+    exec(run, "dtlsctx", &text, "DtlsTransport::process_handshake_payload", true, None, move || out);
+    rustrtc::verif_hooks::decoders::hs_ctx_clear(id);
+}
+
 pub fn special(run: &mut Run, rng: &mut Rng, thorough: bool) {
     let per = if thorough { 3_000 } else { 150 };
-    seq_flood(run, false);
-    seq_flood(run, true);
+    for i in 0..(if thorough { 6_000 } else { 400 }) { run_dtlsctx(run, rng, i % 4 == 3, None); }
     hvr_flood(run);
+    ccs_flood(run, false);
+    if thorough { ccs_flood(run, true); }
     {
         use rustrtc::transports::dtls::handshake::HandshakeType as T;
         for _ in 0..(if thorough { 2_000 } else { 120 }) {
@@ -208,7 +351,19 @@ pub fn special(run: &mut Run, rng: &mut Rng, thorough: bool) {
     let wire: Vec<(usize, Vec<u8>)> = reference.wire.lock().clone();
     let to_server: Vec<Vec<u8>> = wire.iter().filter(|(d, _)| *d == 1).map(|(_, p)| p.clone()).collect();
     let to_client: Vec<Vec<u8>> = wire.iter().filter(|(d, _)| *d == 0).map(|(_, p)| p.clone()).collect();
+    // direction self-check: the first datagram a server receives is a ClientHello (handshake type 1), a client's a type 2/3
+    let hs_type = |p: &Vec<u8>| if p.len() > 13 && p[0] == 22 { p[13] } else { 255 };
+    assert_eq!(to_server.first().map(hs_type), Some(1), "to_server must start with a ClientHello");
+    assert!(matches!(to_client.first().map(hs_type), Some(2) | Some(3)), "to_client must start with ServerHello/HelloVerifyRequest");
     drop(reference);
+    // counter floods, every handshake message type, both roles (server after the genuine ClientHello)
+    let types: &[u8] = if thorough { &[0, 1, 2, 3, 11, 12, 13, 14, 15, 16, 20] } else { &[0, 2, 3, 11, 12, 14, 16, 20] };
+    let ch: Vec<Vec<u8>> = to_server.iter().take(1).cloned().collect();
+    for &t in types {
+        type_flood(run, false, &ch, t, 1);
+        type_flood(run, false, &[], t, 0);
+        type_flood(run, true, &[], t, 0);
+    }
     // pre-handshake: lone server, lone client
     for (is_client, base) in [(false, &to_server), (true, &to_client)] {
         let mut s = Session::new(false, is_client, usize::MAX);
@@ -241,12 +396,24 @@ pub fn special(run: &mut Run, rng: &mut Rng, thorough: bool) {
 }
 
 pub fn replay_special(run: &mut Run, stream: &str, a: &[&str]) -> bool {
+    if stream == "dtlsctx" && a.len() >= 2 { let mut rng = Rng::new(1); run_dtlsctx(run, &mut rng, a[0] == "1", Some(a[2..].iter().map(|h| unhex(h)).collect())); return true; }
     if stream != "dtlslive" || a.len() != 3 { return false; }
     let state = a[0]; let i: usize = a[1].parse().unwrap_or(0);
     let mut s = match state {
         "flood-hvr" => { let mut r2 = Run::new("c07", "/tmp/c07-replay-flood"); hvr_flood(&mut r2);
             for f in &r2.fails { run.fails.push(f.clone()); } let _ = std::fs::remove_dir_all("/tmp/c07-replay-flood"); return true; }
-        "flood-server" | "flood-client" => { let mut r2 = Run::new("c07", "/tmp/c07-replay-flood"); seq_flood(&mut r2, state == "flood-client");
+        "flood-ccs-server" | "flood-ccs-client" => { let mut r2 = Run::new("c07", "/tmp/c07-replay-flood"); ccs_flood(&mut r2, state.ends_with("client"));
+            for f in &r2.fails { run.fails.push(f.clone()); } let _ = std::fs::remove_dir_all("/tmp/c07-replay-flood"); return true; }
+        st if st.starts_with("flood-server-t") || st.starts_with("flood-client-t") => {
+            // the flood is the witness (the single datagram of the case line does not reproduce accumulated state):
+            // replay the whole flood of that type; server floods run with a genuine ClientHello captured from a reference handshake
+            let is_client = st.starts_with("flood-client");
+            let typ: u8 = st.rsplit('t').next().and_then(|x| x.parse().ok()).unwrap_or(14);
+            let mut r2 = Run::new("c07", "/tmp/c07-replay-flood");
+            let prelude: Vec<Vec<u8>> = if is_client { vec![] } else {
+                let r = Session::new(true, false, usize::MAX); r.wait_connected(4000);
+                let w = r.wire.lock().clone(); w.iter().filter(|(d, _)| *d == 1).take(1).map(|(_, p)| p.clone()).collect() };
+            type_flood(&mut r2, is_client, &prelude, typ, if is_client { 0 } else { 1 });
             for f in &r2.fails { run.fails.push(f.clone()); } let _ = std::fs::remove_dir_all("/tmp/c07-replay-flood"); return true; }
         "pre-server" | "fresh-server" => { let s = Session::new(false, false, usize::MAX); s.step(1); s }
         "pre-client" | "fresh-client" => { let s = Session::new(false, true, usize::MAX); s.step(1); s }
